@@ -378,7 +378,7 @@ fn cmd_buffers(args: &[String]) {
 use rustun_verif_harness::zoo;
 
 const RT_USER: &str = "rt-user";
-const RT_REALM: &str = "rt.example.org";
+const RT_REALM: &str = "rt\u{00A0}example\u{3000}org";
 const RT_PASSWORD: &str = "rt\u{00A0}pässw\u{2003}rd";
 
 pub struct RtKey {
@@ -880,6 +880,31 @@ fn cmd_faults(args: &[String]) {
             writeln!(f, "{}", json!({"op":"fmsg","attr":tname,"t":t,"bytes":bytes_json(&bytes),"base_ok":base_ok,
                                      "wrong_keys":wrong,"key":key.name,"key_ok":key_ok,"tail":tail})).unwrap();
             count += 1;
+            // double faults inside the MAC (every pair of MAC bits): two faults must not cancel
+            if what == "integrity" {
+                if let Some(p) = obs::parse(&bytes) {
+                    if let Some(a) = p.attrs.iter().find(|a| a.t == t) {
+                        let base = a.off + 4;
+                        let nbits = a.value.len() * 8;
+                        let stride = if nbits > 160 { 3 } else { 1 }; // SHA-256: every third first bit
+                        for i in (0..nbits).step_by(stride) {
+                            let mut acc = Vec::new();
+                            let mut panicked = false;
+                            for j in (i + 1)..nbits {
+                                let mut alt = bytes.clone();
+                                alt[base + i / 8] ^= 1 << (i % 8);
+                                alt[base + j / 8] ^= 1 << (j % 8);
+                                let (ok, pn) = accepted(&alt, t, &key.lib);
+                                acc.push(ok);
+                                panicked |= pn;
+                            }
+                            writeln!(f, "{}", json!({"op":"flt","attr":tname,"pos":base + i / 8 + 1,"acc":acc,"sub":[],
+                                                     "panic":panicked,"double":true})).unwrap();
+                            count += 1;
+                        }
+                    }
+                }
+            }
             for pos in 0..size {
                 let mut acc = Vec::new();
                 let mut panicked = false;
